@@ -21,6 +21,7 @@
  *   cryptofail <0|1>                             fault injection: gcry_cipher_open fails from now on
  *   rand <32 hex>                                next challenge(s)
  *   conn <cid> <sid> <rev> <prehex|->            new connection; pre = bytes already sent by the peer
+ *   rconn <cid> <sid> <mode> <prehex|->           the REAL rfbReverseConnection (1: viewer listens, 0/2: connect fails)
  *   send <cid> <hex> | sendnp <cid> <hex> | proc <cid> | close <cid> | state
  *   des <key16hex> <hex> | refdes <key16hex> <hex> | encb <pwhex> <32hex> | store <pwhex> | load <filehex>
  *   ext <type> | unext <type>                    application security handler (writes "EXT!" and closes)
@@ -32,6 +33,9 @@
 #include "crypto.h"
 #include <dlfcn.h>
 #include <gcrypt.h>
+#include <netinet/in.h>
+#include <arpa/inet.h>
+#include <netinet/tcp.h>
 
 extern rfbProtocolExtension tightVncFileTransferExtension;   /* tightvnc-filetransfer/rfbtightserver.c */
 
@@ -46,6 +50,7 @@ static vh_conn conns[MAXC];
 static int used[MAXC], nscr;
 static long capsbytes[MAXC];     /* TightVNC interaction caps written after ServerInit (content not compared) */
 static int tightreg;
+static int istcp[MAXC];            /* connection made by the real rfbReverseConnection over loopback TCP */
 static char tmpdir[64];
 
 /* ---- deterministic random source for rfbRandomBytes ------------------------------------------ */
@@ -62,6 +67,63 @@ gcry_error_t gcry_cipher_open(gcry_cipher_hd_t *hd, int algo, int mode, unsigned
   if (cryptofail) { *hd = NULL; return gcry_error(GPG_ERR_CIPHER_ALGO); }
   return real(hd, algo, mode, flags);
 }
+
+/* ---- the listening viewer rfbReverseConnection connects to ------------------------------------
+ * A loopback TCP listener owned by the harness.  connect() is interposed only to play the viewer's
+ * part at the right moment: when the library's connect() to the listener has succeeded, the harness
+ * accepts the connection and writes the viewer's first bytes at once, so that they are there when
+ * rfbNewClient peeks for a WebSocket greeting (otherwise every reverse connection costs a 100 ms wait).
+ * A reverse connection that is to FAIL goes to a loopback port nobody listens on (real ECONNREFUSED). */
+static int listen_fd = -1, listen_port, dead_port;
+static int rc_armed, rc_accepted = -1;
+static unsigned char rc_pre[64]; static size_t rc_prelen;
+
+static void open_listener(void) {
+  struct sockaddr_in a; socklen_t l = sizeof a; int fd;
+  if (listen_fd >= 0) return;
+  memset(&a, 0, sizeof a); a.sin_family = AF_INET; a.sin_addr.s_addr = htonl(INADDR_LOOPBACK);
+  listen_fd = socket(AF_INET, SOCK_STREAM, 0);
+  if (listen_fd < 0 || bind(listen_fd, (struct sockaddr *)&a, sizeof a) < 0 || listen(listen_fd, 16) < 0 ||
+      getsockname(listen_fd, (struct sockaddr *)&a, &l) < 0) { perror("listener"); exit(2); }
+  listen_port = ntohs(a.sin_port);
+  /* a port that refuses connections: bind one, note its number, close it */
+  memset(&a, 0, sizeof a); a.sin_family = AF_INET; a.sin_addr.s_addr = htonl(INADDR_LOOPBACK); l = sizeof a;
+  fd = socket(AF_INET, SOCK_STREAM, 0);
+  if (fd < 0 || bind(fd, (struct sockaddr *)&a, sizeof a) < 0 || getsockname(fd, (struct sockaddr *)&a, &l) < 0) { perror("deadport"); exit(2); }
+  dead_port = ntohs(a.sin_port);
+  close(fd);
+}
+
+int connect(int fd, const struct sockaddr *addr, socklen_t len) {
+  static int (*real)(int, const struct sockaddr *, socklen_t);
+  int r;
+  if (!real) real = (int (*)(int, const struct sockaddr *, socklen_t))dlsym(RTLD_NEXT, "connect");
+  r = real(fd, addr, len);
+  if (rc_armed && addr && addr->sa_family == AF_INET &&
+      ntohs(((const struct sockaddr_in *)addr)->sin_port) == listen_port) {
+    int e = errno;
+    if (r < 0 && (e == EINPROGRESS || e == EWOULDBLOCK)) {
+      struct pollfd pf; int soerr = 0; socklen_t sl = sizeof soerr;
+      pf.fd = fd; pf.events = POLLOUT;
+      if (poll(&pf, 1, 2000) == 1 && getsockopt(fd, SOL_SOCKET, SO_ERROR, &soerr, &sl) == 0 && soerr == 0) r = 0;
+      else { errno = soerr ? soerr : ETIMEDOUT; return -1; }
+    }
+    if (r == 0) {
+      rc_armed = 0;
+      rc_accepted = accept(listen_fd, NULL, NULL);
+      if (rc_accepted >= 0) {
+        int one = 1;
+        fcntl(rc_accepted, F_SETFL, fcntl(rc_accepted, F_GETFL) | O_NONBLOCK);
+        setsockopt(rc_accepted, IPPROTO_TCP, TCP_NODELAY, &one, sizeof one);   /* no Nagle delay for small writes */
+        if (rc_prelen) { ssize_t w = write(rc_accepted, rc_pre, rc_prelen); (void)w; }
+      }
+    } else errno = e;
+  }
+  return r;
+}
+
+/* loopback TCP: give bytes in flight a moment to arrive */
+static void settle(int fd) { struct pollfd pf; pf.fd = fd; pf.events = POLLIN; if (fd >= 0) poll(&pf, 1, 3); }
 
 static const char *stname(int st) {
   switch (st) {
@@ -104,6 +166,7 @@ static void process(int id) {
   vh_drain(c);
   n0 = c->out.n;
   rfbProcessClientMessage(c->cl);
+  if (istcp[id]) settle(c->peer);
   vh_drain(c);
   silen = sz_rfbServerInitMsg + strlen(c->cl->screen->desktopName);
   if (st0 == RFB_INITIALISATION && has_tight(c->cl) && c->out.n > n0 + silen) {
@@ -116,6 +179,9 @@ static void pump(int id) {
   int guard = 0;
   while (isopen(id) && guard++ < 64) {
     int nd = need(conns[id].cl->state);
+    if (nd >= 0 && istcp[id]) {   /* loopback TCP: bytes just written may need a moment */
+      int k; for (k = 0; k < 6 && vh_srv_pending(conns[id].cl->sock) < nd; k++) usleep(500);
+    }
     if (nd < 0 || vh_srv_pending(conns[id].cl->sock) < nd) break;
     process(id);
   }
@@ -123,6 +189,7 @@ static void pump(int id) {
 
 static void obs(int id) {
   vh_conn *c = &conns[id];
+  if (istcp[id]) settle(c->peer);
   vh_drain(c);
   if (!c->cl) { printf("c%d gone out=", id); }
   else printf("c%d %s %s vo=%d out=", id, stname(c->cl->state), isopen(id) ? "open" : "closed",
@@ -219,6 +286,31 @@ int main(void) {
       used[id] = 1;
       vh_connect_pre(scr[sid], &conns[id], buf, (size_t)l);
       if (conns[id].cl && atoi(tok[3])) conns[id].cl->reverseConnection = TRUE;  /* rfbReverseConnection */
+      pump(id);
+      obs(id);
+    } else if (!strcmp(tok[0], "rconn") && n == 5) {
+      /* the application calls the REAL rfbReverseConnection: mode 1 = a viewer listens (loopback TCP),
+         0 = nobody listens on that port (connection refused), 2 = port 0 */
+      int id = atoi(tok[1]), sid = atoi(tok[2]), mode = atoi(tok[3]);
+      long l = vh_unhex(tok[4], buf, sizeof buf);
+      rfbClientPtr cl;
+      if (id < 0 || id >= MAXC || used[id] || sid < 0 || sid >= MAXS || !scr[sid] || l < 0 || l > 64 ||
+          mode < 0 || mode > 2 || (l > 0 && (l < 4 || memcmp(buf, "RFB ", 4)))) { puts("bad-op"); goto next; }
+      open_listener();
+      if (mode != 1) {
+        cl = rfbReverseConnection(scr[sid], (char *)"127.0.0.1", mode == 0 ? dead_port : 0);
+        if (cl) { fprintf(stderr, "reverse connection to a closed port succeeded\n"); return 2; }
+        puts("rc-failed");
+        goto next;
+      }
+      memcpy(rc_pre, buf, (size_t)l); rc_prelen = (size_t)l; rc_armed = 1; rc_accepted = -1;
+      cl = rfbReverseConnection(scr[sid], (char *)"127.0.0.1", listen_port);
+      rc_armed = 0;
+      if (!cl || rc_accepted < 0) { fprintf(stderr, "reverse connection to the listening viewer failed\n"); return 2; }
+      used[id] = 1; istcp[id] = 1;
+      memset(&conns[id], 0, sizeof conns[id]);
+      conns[id].cl = cl; conns[id].peer = rc_accepted; conns[id].srvfd = cl->sock;
+      cl->clientData = &conns[id]; cl->clientGoneHook = vh_gone_hook;
       pump(id);
       obs(id);
     } else if ((!strcmp(tok[0], "send") || !strcmp(tok[0], "sendnp")) && n == 3) {
